@@ -410,6 +410,8 @@ def run(chk, repo, tier):
     run_more(chk, repo)
     run_n8(chk, repo)
     run_n9_n11(chk, repo)
+    run_n13(chk, repo)
+    run_n14(chk, repo)
 
 
 def run_more(chk, repo):
@@ -662,3 +664,155 @@ def run_n12(chk, repo):
         chk.violation(N12, rm.rel, f.name, unparse(pen[-1])[:90],
                       'fixed iiv omegas are counted as estimated: every one adds log(n_individuals) to BIC(iiv)', line=pen[-1].lineno,
                       witness='a candidate with a fixed omega is ranked below an otherwise identical one by iivsearch')
+
+
+def run_n13(chk, repo):
+    """N13: an estimate is "near a bound" iff it is near its finite lower bound OR near its finite upper bound. The body of
+    _is_close_to_bound is evaluated over the 16 combinations of (lower finite, upper finite, near lower, near upper)"""
+    import copy
+    import itertools
+    import math
+    from sa import tables as T_
+    N13 = chk.rule('N13', '_is_close_to_bound (behind check_parameters_near_bounds and the estimate_near_boundary* strictness '
+                          'terms): the answer is (lower finite and near lower) or (upper finite and near upper) in all 16 cases',
+                   floor=16)
+    rm = repo.module('pharmpy.modeling.results')
+    f = rm.functions.get('_is_close_to_bound')
+    if f is None:
+        raise AnalysisError('N13: _is_close_to_bound not found')
+    f = repo.follow_delegation(f)
+    par = f.node.args.args[0].arg
+    near = rm.functions.get('_is_near_target')
+    near_names = {near.name} if near is not None else {'_is_near_target'}
+
+    class Prep(ast.NodeTransformer):
+        def visit_Call(self, c):
+            self.generic_visit(c)
+            d = dotted(c.func) or ''
+            if d == 'float' and c.args and isinstance(c.args[0], ast.Constant) and str(c.args[0].value).lower().lstrip('+-') in (
+                    'inf', 'infinity'):
+                return ast.Constant(value=float(c.args[0].value))
+            if d.split('.')[-1] in near_names and len(c.args) >= 2:
+                tgt = unparse(c.args[1])
+                if tgt == f'{par}.lower':
+                    return ast.Name(id='__near_lower', ctx=ast.Load())
+                if tgt == f'{par}.upper':
+                    return ast.Name(id='__near_upper', ctx=ast.Load())
+            if d in ('math.isfinite', 'np.isfinite', 'numpy.isfinite', 'isfinite') and c.args:
+                return ast.Compare(left=ast.Call(func=ast.Name(id='abs', ctx=ast.Load()), args=[c.args[0]], keywords=[]),
+                                   ops=[ast.Lt()], comparators=[ast.Constant(value=math.inf)])
+            if d in ('math.isinf', 'np.isinf', 'numpy.isinf', 'isinf') and c.args:
+                return ast.Compare(left=ast.Call(func=ast.Name(id='abs', ctx=ast.Load()), args=[c.args[0]], keywords=[]),
+                                   ops=[ast.Eq()], comparators=[ast.Constant(value=math.inf)])
+            return c
+
+        def visit_Attribute(self, a):
+            if unparse(a) in ('math.inf', 'np.inf', 'numpy.inf'):
+                return ast.Constant(value=math.inf)
+            return self.generic_visit(a)
+
+    body = [Prep().visit(copy.deepcopy(s_)) for s_ in f.node.body]
+
+    def ev(e, env):
+        if isinstance(e, ast.Call) and dotted(e.func) == 'abs' and e.args:
+            return abs(ev(e.args[0], env))
+        if isinstance(e, ast.IfExp):
+            return ev(e.body, env) if ev(e.test, env) else ev(e.orelse, env)
+        if isinstance(e, ast.Call) and dotted(e.func) in ('bool', 'any', 'all') and e.args:
+            v = ev(e.args[0], env)
+            return bool(v) if dotted(e.func) == 'bool' else (any(v) if dotted(e.func) == 'any' else all(v))
+        if isinstance(e, ast.BoolOp):
+            r = None
+            for v in e.values:
+                r = ev(v, env)
+                if (isinstance(e.op, ast.And) and not r) or (isinstance(e.op, ast.Or) and r):
+                    return r
+            return r
+        if isinstance(e, ast.UnaryOp) and isinstance(e.op, ast.Not):
+            return not ev(e.operand, env)
+        if isinstance(e, ast.Compare):
+            return T_.eval_pred(ast.Compare(left=ast.Constant(value=ev(e.left, env)), ops=e.ops,
+                                            comparators=[ast.Constant(value=ev(c, env)) for c in e.comparators]), {})
+        if isinstance(e, (ast.Tuple, ast.List)):
+            return [ev(x, env) for x in e.elts]
+        return T_.eval_pred(e, env)
+
+    def run_block(stmts, env):
+        for s_ in stmts:
+            if isinstance(s_, ast.Expr):
+                continue
+            if isinstance(s_, ast.Return):
+                return ('ret', ev(s_.value, env) if s_.value is not None else None)
+            if isinstance(s_, ast.If):
+                r = run_block(s_.body if ev(s_.test, env) else s_.orelse, env)
+                if r is not None:
+                    return r
+                continue
+            if isinstance(s_, ast.Assign) and len(s_.targets) == 1 and isinstance(s_.targets[0], ast.Name):
+                try:
+                    env[s_.targets[0].id] = ev(s_.value, env)
+                except T_.Undecidable:
+                    env.pop(s_.targets[0].id, None)
+                continue
+            raise T_.Undecidable(f'statement {unparse(s_)[:50]}')
+        return None
+
+    for lf, uf, nl, nu in itertools.product((True, False), repeat=4):
+        env = {f'{par}.lower': 0.0 if lf else -math.inf, f'{par}.upper': 1.0 if uf else math.inf,
+               '__near_lower': nl, '__near_upper': nu, 'value': 0.5, f'{par}.init': 0.5}
+        for a in f.node.args.args[1:]:
+            env.setdefault(a.arg, 0.5)
+        try:
+            r = run_block(body, env)
+        except T_.Undecidable as e:
+            raise AnalysisError(f'N13: cannot evaluate _is_close_to_bound: {e}')
+        got = bool(r[1]) if r is not None else False
+        want = (lf and nl) or (uf and nu)
+        chk.instance(N13, f'lower finite={lf} upper finite={uf} near lower={nl} near upper={nu}: {got} (expected {want})')
+        if got != want:
+            chk.violation(N13, rm.rel, f.qualname,
+                          f'lower finite={lf}, upper finite={uf}, near lower={nl}, near upper={nu} -> {got}',
+                          f'the estimate is{"" if want else " not"} at a finite bound but the function answers {got}',
+                          line=f.node.lineno,
+                          witness='a theta with both bounds finite, (0, x, 0.01), whose estimate sits at the upper bound: '
+                                  'check_parameters_near_bounds says False, the strictness term estimate_near_boundary passes and '
+                                  'the candidate can be ranked best')
+
+
+def run_n14(chk, repo):
+    """N14: the bootstrap summaries are statistics of the replicates that are available: a replicate without an estimate for a
+    parameter (NaN) is left out of that column. The pandas reductions do that (skipna); numpy's quantile / percentile / median /
+    mean / std / min / max propagate NaN to the whole column (the nan* family does not)"""
+    N14 = chk.rule('N14', 'bootstrap results: the statistics over the replicate tables are NaN-skipping reductions (pandas or '
+                          'numpy nan*), never NaN-propagating numpy reductions of the table', floor=6)
+    bm = repo.module('pharmpy.tools.bootstrap.results')
+    PROP = {'quantile', 'percentile', 'median', 'mean', 'average', 'std', 'var', 'min', 'max', 'amin', 'amax', 'sum', 'ptp'}
+    PANDAS = {'quantile', 'median', 'mean', 'std', 'var', 'min', 'max', 'sum', 'skew', 'kurt'}
+    n = 0
+    for f in dict.values(bm.functions):
+        for c in [c for c in ast.walk(f.node) if isinstance(c, ast.Call)]:
+            d = dotted(c.func) or ''
+            head, _, last = d.rpartition('.')
+            if head in ('np', 'numpy') and last in PROP and c.args:
+                n += 1
+                chk.instance(N14, f'{f.qualname}: {unparse(c)[:60]}: NaN-propagating')
+                chk.violation(N14, bm.rel, f.qualname, unparse(c)[:100],
+                              f'np.{last} returns NaN for every column that has a single missing replicate value, while the '
+                              f'other statistics of the same column are computed from the available replicates',
+                              line=c.lineno,
+                              witness='30 replicates, one without an estimate for IVCL: the percentile row of IVCL is all NaN '
+                                      'next to a finite mean / median / standard error')
+            elif head in ('np', 'numpy') and last.startswith('nan') and last[3:] in PROP:
+                n += 1
+                chk.instance(N14, f'{f.qualname}: {unparse(c)[:60]}: NaN-skipping numpy reduction')
+            elif isinstance(c.func, ast.Attribute) and c.func.attr in PANDAS and head and head.split('.')[0] not in ('np', 'numpy', 'math') \
+                    and not any(k.arg == 'skipna' and isinstance(k.value, ast.Constant) and k.value.value is False for k in c.keywords):
+                n += 1
+                chk.instance(N14, f'{f.qualname}: {unparse(c)[:60]}: pandas reduction (skipna)')
+            elif isinstance(c.func, ast.Attribute) and c.func.attr in PANDAS and any(
+                    k.arg == 'skipna' and isinstance(k.value, ast.Constant) and k.value.value is False for k in c.keywords):
+                n += 1
+                chk.violation(N14, bm.rel, f.qualname, unparse(c)[:100], 'skipna=False propagates a missing replicate value',
+                              line=c.lineno)
+    if n < 3:
+        raise AnalysisError(f'N14: only {n} reductions found in bootstrap/results.py')
